@@ -20,7 +20,16 @@ Readings (where the property text leaves a choice, the one under which the minim
 * ids: within a performed part, `n<k>` is the rank in the lexicographic order of (note_on, midi_pitch,
   note_off, channel, track).
 * the loader makes a performed part only of a track that holds a note, a control or a program (documented
-  behaviour: a conductor track is not a part); generated meta events sit on tracks that carry one.
+  behaviour: a conductor track is not a part); generated meta events sit on tracks that carry one (round 3: a few
+  sit elsewhere - then the round trip of the notes-free track is not judged, only compared with the model).
+* round 3 - the times of a performance are its SECONDS.  `note_on_tick` / `note_off_tick` / `time_tick` and
+  `PerformedPart.ppq` / `.mpq` are what an importer left behind (the ticks and resolution of the file that was read,
+  the DEFAULT tempo): the property speaks about "the original times rounded to the nearest tick" of the file being
+  written, so the written file has to reproduce the seconds whatever these fields hold.  A performance returned by
+  `load_performance_midi` / `load_performance` is a performance like any other: saved again (any ppq/mpq, also
+  after an edit of its seconds) and loaded, it comes back with its notes, controls, programs, key/time signatures
+  and other meta events (second generation; fixes/C06-7 for the signatures and meta events of a part read from a
+  file track after a notes-free track).
 """
 import io
 import math
@@ -47,6 +56,9 @@ TRUSTED = [
     "scipy interp1d(kind='previous', fill_value=(first, last)) and numpy comparisons in remove_silence_from_performed_part "
     "(modelled as prevVal: last sample with time <= t after a stable sort, the first/last listed value outside the "
     "range; compared on every raw case)",
+    "round 3: the composed model file -> loader -> exporter (`regen`) integrates the tempo map exactly, the loader in "
+    "binary64: it is compared only on second-generation cases none of whose tick images lies within 1e-4 of an x.5 "
+    "boundary (the others are compared through `exp` on the loader's binary64 seconds, as every export)",
     "load_match raises on a MIDI file that contains any message (its bytes are not UTF-8): after fixes/C06-6 it is not "
     "even tried once the MIDI loader has succeeded",
 ]
@@ -59,8 +71,13 @@ PARTIAL = [
     "that track) but not counted, and their tick (smallest tick written so far) is compared, not proved",
     "first_note_at_zero: the value of the control inserted at time 0 and the values of two controls of one "
     "(track, channel, number) at the same time are modelled and compared (silence_control_values covers groups with "
-    "strictly increasing times); only the FIRST performed part is shifted (code as it is), sound_off (C14) and the stale "
-    "*_tick fields after the shift are not checked",
+    "strictly increasing times); only the FIRST performed part is shifted (code as it is), sound_off (C14) is not checked; "
+    "the *_tick fields a loaded or shifted performance keeps are not judged themselves - only that the exporter writes "
+    "the seconds whatever they hold",
+    "second generation (round 3): regen_eq / loadedParts_eq / second_generation_time / second_generation_notes cover "
+    "file -> loader -> exporter for every file; edits of the seconds between load and save other than "
+    "first_note_at_zero (shift, change of tempo) are exercised by the generator and judged by the oracle, in the model "
+    "they are just other seconds",
     "load_performance on match files is C08's subject; here only MIDI files go through the dispatcher",
     "binary64: tick rounding at x.5 images and adjust_time sums are compared with tolerance, not proved",
     "sound_off of loaded notes (C14) is not part of this check; PerformedPart.mpq of a loaded part is the default tempo "
@@ -75,11 +92,18 @@ RULE = ("structured random performances (1-4 parts/tracks, channels 0-15, veloci
         "different pitches and of one pitch on different channels, pitch-bend / channel and polyphonic aftertouch (also on "
         "sounding pitches) / sysex messages; every raw file and 30% of the written files also through "
         "load_performance (dispatch; first_note_at_zero); adjust_time on tempo lists in order of tick; "
-        "mido.merge_tracks alone.  distinct = distinct request text; non-trivial = at least one note or tempo event")
+        "mido.merge_tracks alone.  Round 3: 35% of the hand-made performances carry stored tick fields (in step with the "
+        "seconds, of another tempo / resolution, shifted, arbitrary) and own ppq/mpq attributes (65% equal to the "
+        "file's); raw files in the conductor-track layout; second/third-generation cases: a raw file (any tempo map) or "
+        "a written file (any ppq/mpq) is loaded (load_performance_midi / load_performance / first_note_at_zero, merged or "
+        "not), optionally shifted or rescaled in its seconds, saved as Performance / list / first part - 60% with the "
+        "source's ppq and 60% with the loader's default tempo, the values the loaded parts carry - and loaded again, "
+        "once or twice.  distinct = distinct request text; non-trivial = at least one note or tempo event")
 LEVEL_TEXT = ("Lean 4 theorems over all tempo lists / message lists / note lists about an executable model of the exporter "
               "and the loader (tick rounding, bucket order and delta encoding, tempo integration, pairing, ids, controls, "
               "track merging incl. the composed notes / programs theorems for merged files, track renumbering by "
-              "sanitize_track_numbers and its composition with the loader, silence removal of load_performance); the model "
+              "sanitize_track_numbers (all lists) and its composition with the loader, silence removal of load_performance, "
+              "the second generation file -> loader -> exporter incl. when stored ticks coincide with the new ticks); the model "
               "is tied to the code by a differential run: message list of every written file, every loaded field, the "
               "dispatcher's result and the part after first_note_at_zero are compared with the model, and an independent "
               "Fraction/float-based oracle states the property on the implementation's outputs.")
